@@ -26,7 +26,8 @@ CONSTANTS Configs,      \* set of [tn, td, p, c]
           SAT,          \* marker for saturating demand
           InScope(_),   \* class of configurations the envelope invariants are stated for
           ExcuseStuck   \* TRUE: histories in which the token count rests exactly on the warning line are excused
-                        \* from ColdAfterIdle (history-dependent defect of the pinned code, see notes/C11.md)
+                        \* from ColdAfterIdle.  Needed before fix 704a566 (the line itself was never refilled); every
+                        \* run now uses FALSE, and the lead run would show a return of that defect as a Healthy lead.
 
 VARIABLES
     cfg,
